@@ -133,6 +133,57 @@ Section Hist.
     destruct (used c d n) eqn:U0; [now left|]. right.
     destruct (used_only_if_step c (fst s) (snd s) d n Dr Nr U0 U) as [O R]. rewrite O, R. cbn. lia.
   Qed.
+  (* ---------- the accepted messages of a history are pairwise distinct ---------- *)
+  (* the (source domain, nonce) pair a receive names *)
+  Definition pair_of (t : tx) : list (N * N) :=
+    match t with
+    | ReceiveMessage _ msg _ => match decode_message msg with Some m => [(m_src m, m_nonce m)] | None => [] end
+    | _ => []
+    end.
+  (* the pairs of the receives that succeeded along a history, in order *)
+  Fixpoint accepted (c : chain) (h : list step) : list (N * N) :=
+    match h with
+    | [] => []
+    | s :: h' =>
+        let r := deliver e c (fst s) (snd s) in
+        (if is_ok r then pair_of (snd s) else []) ++ accepted (r_chain r) h'
+    end.
+
+  Lemma pair_of_receives t d n : pair_of t = [(d, n)] -> receives t d n = true.
+  Proof.
+    destruct t; try discriminate. cbn. destruct (decode_message _); [|discriminate].
+    intros [= <- <-]. now rewrite !N.eqb_refl.
+  Qed.
+  Lemma pair_of_cases t : pair_of t = [] \/ exists d n, pair_of t = [(d, n)].
+  Proof. destruct t; cbn; auto. destruct (decode_message _); eauto. Qed.
+
+  Lemma accepted_fresh_nodup h : forall c,
+    NoDup (accepted c h) /\ forall d n, In (d, n) (accepted c h) -> used c d n = false.
+  Proof.
+    induction h as [|s h IH]; intros c; cbn [accepted]; [split; [constructor|intros ? ? []]|].
+    set (r := deliver e c (fst s) (snd s)). destruct (IH (r_chain r)) as [ND FR].
+    assert (forall d n, In (d, n) (accepted (r_chain r) h) -> used c d n = false) as FR'.
+    { intros d n I. destruct (used c d n) eqn:U; [|reflexivity].
+      rewrite <- (FR d n I). symmetry. subst r. now apply used_monotone_step. }
+    destruct (is_ok r) eqn:O; [|cbn [app]; auto].
+    destruct (pair_of_cases (snd s)) as [->|(d&n&P)]; [cbn [app]; auto|]. rewrite P. cbn [app].
+    apply pair_of_receives in P. destruct (ok_receive_marks c (fst s) (snd s) d n O P) as [NU U']. fold r in U'.
+    split.
+    - constructor; [|exact ND]. intros I. apply FR in I. congruence.
+    - intros d' n' [[= <- <-]|I]; auto.
+  Qed.
+
+  (* every accepted pair is used at the end of the history *)
+  Lemma accepted_used h : forall c d n, In (d, n) (accepted c h) -> used (run e c h) d n = true.
+  Proof.
+    induction h as [|s h IH]; intros c d n; cbn [accepted run fold_left]; [intros []|].
+    fold (run e (run_step e c s) h). unfold run_step. set (r := deliver e c (fst s) (snd s)).
+    intros I. apply in_app_or in I as [I|I]; [|now apply IH].
+    destruct (is_ok r) eqn:O; [|destruct I].
+    destruct (pair_of_cases (snd s)) as [E|(d'&n'&P)]; [rewrite E in I; destruct I|].
+    rewrite P in I. destruct I as [[= <- <-]|[]]. apply pair_of_receives in P.
+    apply used_monotone_run. subst r. now apply (ok_receive_marks c (fst s) (snd s) d' n' O P).
+  Qed.
 End Hist.
 
 (* ---------- C07: the outbound nonce counter ---------- *)
